@@ -237,7 +237,8 @@ func c17Check(env *core.Env, cc core.Case) core.Verdict {
 			return vv
 		}
 		out := string(r.Stdout)
-		re, err := regexp.Compile(out)
+		// (the whole entry has to be accepted: a search would be content with the part of it that survived)
+		re, err := regexp.Compile("^(?:" + out + ")$")
 		if err != nil {
 			return core.Viol("invalid-output:"+c.Cmd, "generate printed something that is not a regex (%d bytes): %v", len(out), err)
 		}
